@@ -185,7 +185,9 @@ class DifferentiationMapper(pymbolic.mapper.RecursiveMapper,
         f = self.rec_undiff(f, *args)
         g = self.rec_undiff(g, *args)
 
-        log = pymbolic.var("log")
+        # math.log: the spelling the table of derivatives above knows, bound
+        # wherever an expression with elementary functions is evaluated
+        from pymbolic.functions import log
 
         if (not df) and (not dg):
             return 0
